@@ -63,3 +63,19 @@ fn h_w_recv_stream() {
         assert_eq!(got, queued.concat(), "bytes lost, duplicated or reordered by successive recv({n}) with {:?} queued", queued);
     }
 }
+
+//# id=witness.recv_msg_interleaved props=C02 kind=witness pair=sockrecv.Socket.recv_msg.takes_the_head_of_what_was_pending
+// byte-bounded reads interleaved with whole-message reads still return the queued bytes exactly once, in order
+#[cfg(vx_replay)]
+#[test]
+fn h_w_recv_msg_interleaved() {
+    let queued = vec![&b"abcdefg"[..], &b"hi"[..], &b"jklm"[..]];
+    let (mut s, _tx) = socket_with(&queued);
+    let rt = tokio::runtime::Builder::new_current_thread().build().unwrap();
+    let mut got = rt.block_on(s.recv(3)).unwrap();
+    got.extend(rt.block_on(s.recv_msg()).unwrap().to_vec()); // the stored remainder "defg"
+    got.extend(rt.block_on(s.recv(1)).unwrap());
+    got.extend(rt.block_on(s.recv_msg()).unwrap().to_vec());
+    got.extend(rt.block_on(s.recv_msg()).unwrap().to_vec());
+    assert_eq!(got, queued.concat());
+}
